@@ -32,9 +32,9 @@ ENGINE = "web"
 TECHNIQUE = "generated edit documents (valid items + invalid item at every position) PUT to the live application; state before/after + reference edit model"
 BUDGET = {"quick": (2500, 12), "thorough": (12_000, 150)}
 WORKERS = {"quick": 2, "thorough": 16}
-REQUIRED = ["error_leaves_flow_unchanged", "error_leaves_backup_unchanged", "success_equals_reference", "unknown_field_refused", "errors_after_applied_items", "prelude_edits"]
+REQUIRED = ["error_leaves_flow_unchanged", "error_leaves_backup_unchanged", "success_equals_reference", "unknown_field_refused", "errors_after_applied_items", "prelude_edits", "ui_connected_cases", "ui_absent_cases"]
 RULE = (
-    "case = (initial flow: http with/without response; trailers absent / present-but-empty / non-empty, empty header lists, empty or absent content; optionally an earlier ACCEPTED edit such as trailers: [] on the same flow; with Host header / trailers / content-type variants, pristine or "
+    "case = (web UI /updates websocket connected: yes/no) x (initial flow: http with/without response; trailers absent / present-but-empty / non-empty, empty header lists, empty or absent content; optionally an earlier ACCEPTED edit such as trailers: [] on the same flow; with Host header / trailers / content-type variants, pristine or "
     "already modified, or tcp) x (edit document: 0-4 valid request items, 0-4 valid response items, marked/comment, and "
     "0-2 invalid, debatable or exotic-but-parseable items (raw JSON literals 1e999/Infinity/NaN, 10**400, floats, booleans, nested "
     "containers, very long / astral / lone-surrogate strings in every typed field) -- unknown key, malformed port/code, malformed header/trailer list, non-string content, "
@@ -238,6 +238,15 @@ LENIENT_PRELUDES = [
     {"request": {"trailers": {"ab": 1}}},
     {"request": {"port": "80", "method": 5}},
     {"marked": None, "comment": None},
+    # values that only the JSON serialisation for the web UI can object to (unhashable / lone surrogates / non-finite)
+    {"marked": [1]},
+    {"marked": {"a": 1}},
+    {"comment": "\ud800"},
+    {"marked": "\udc80", "comment": float("nan")},
+    {"request": {"host": "\ud800"}},
+    {"request": {"method": "\udc80", "scheme": "\udcff"}},
+    {"request": {"headers": [["\udcff", "\udc80"]]}, "response": {"trailers": [["a", "\udcff"]]}},
+    {"comment": [[[[1]]]], "marked": float("inf")},
 ]
 
 
@@ -390,7 +399,8 @@ def first_failure(flat):
 
 def classify(flat, modified, accepted_prelude=None):
     """Mechanism of an error answer that left the flow changed -- from the document and the flow's history only."""
-    if null_in_request_trailers(accepted_prelude):
+    # (also repaired in /repo: 5a671a43b, header names/values reject None) -> reported unclassified from now on
+    if False and null_in_request_trailers(accepted_prelude):
         # history: an earlier edit stored a null name/value in the REQUEST trailers and was answered 200 (nothing reads
         # request trailers when the view is notified); the snapshot of such a flow cannot be restored any more
         return "rollback-impossible-after-accepted-null-in-request-trailers"
@@ -431,10 +441,22 @@ async def amain(ctx):
                     prelude = {k: v for k, v in prelude.items() if k != "response"}
             doc, flat = gen_doc(r, kind, force_trailers=(prelude is not None and r.random() < 0.8) or r.random() < 0.15)
             rig.master.view.add([f])
+            ui = r.random() < 0.5  # is a web UI (an /updates websocket) connected while the edit is made?
+            ui_conn = None
             try:
                 ch, cq, cc = pol.build_cred("cookie-valid", token=rig.token, secret=rig.cookie_secret, cookie_name=rig.auth_cookie_name, now=now, rng=r)
                 xh, xq, xc, xf = pol.build_xsrf("valid-v1-header", cookie_name=rig.xsrf_cookie_name, now=now, rng=r)
                 headers = ch + xh + [("Cookie", "; ".join(f"{k}={v}" for k, v in cc + xc)), ("Content-Type", "application/json")]
+                if ui:
+                    try:
+                        ui_conn = await web.ui_connect(rig, ch + [("Cookie", "; ".join(f"{k}={v}" for k, v in cc))])
+                    except (asyncio.TimeoutError, ConnectionError, asyncio.IncompleteReadError):
+                        raise Inconclusive("harness could not connect the UI websocket")
+                    if len(webapp_connections()) != 1:
+                        raise Inconclusive("UI websocket not registered")
+                elif webapp_connections():
+                    raise Inconclusive("stale UI websocket")
+                ctx.count("ui_connected_cases" if ui else "ui_absent_cases")
                 if prelude is not None:
                     # history: an earlier edit that must be ACCEPTED (leaves present-but-empty containers and a backup)
                     p_snap = ref.snapshot(f)
@@ -479,11 +501,13 @@ async def amain(ctx):
                 after_backup = copy.deepcopy(f._backup)
             finally:
                 rig.master.view.remove([f])
+                await web.ui_disconnect(ui_conn)
             idx, cls = first_failure(flat)
             n_before = sum(1 for (_, _, c) in flat[: idx if idx is not None else len(flat)] if c is None)
             wit = {
                 "flow": kind,
                 "already_modified": modified,
+                "ui_client_connected": ui,
                 "earlier_accepted_edit": None if prelude is None else json.dumps(prelude),
                 "body": short(body_text, 900),
                 "status": resp.status,
@@ -491,7 +515,7 @@ async def amain(ctx):
                 "first_invalid_item": None if idx is None else list(flat[idx]),
                 "valid_items_applied_before_it": n_before,
             }
-            ctx.seen("answers", f"{resp.status}:{cls}")
+            ctx.seen("answers", f"{resp.status}:{cls}:ui={int(ui)}")
             if resp.status in (401, 403):
                 raise Inconclusive(f"harness credentials were refused ({resp.status})")
             if resp.status >= 400:
@@ -528,12 +552,18 @@ async def amain(ctx):
             all_classes = tuple(sorted({f"{s if s != 'top' else ''}:{c}" for (s, _, c) in flat if c}))
             nontrivial = (cls is not None and (n_before > 0 or modified or prelude is not None)) or (cls is None and len(flat) >= 2)
             ctx.case(
-                (kind, modified, None if prelude is None else tuple(sorted(prelude)), all_classes, min(n_before, 2), resp.status // 100),
+                (kind, modified, ui, None if prelude is None else tuple(sorted(prelude)), all_classes, min(n_before, 2), resp.status // 100),
                 nontrivial=nontrivial,
-                sample={"flow": kind, "already_modified": modified, "earlier_accepted_edit": prelude, "body": short(body_text, 500), "status": resp.status},
+                sample={"flow": kind, "already_modified": modified, "ui_client_connected": ui, "earlier_accepted_edit": prelude, "body": short(body_text, 500), "status": resp.status},
             )
     finally:
         await rig.stop()
+
+
+def webapp_connections():
+    from mitmproxy.tools.web import app as webapp
+
+    return webapp.ClientConnection.connections
 
 
 def _get(d, dotted):
